@@ -115,6 +115,9 @@ def main():
     if not violations:
         import re as _re
         owners = sorted({m.group(1) for b in broken for m in [_re.match(r'theorem Props/(C\d\d)/', b)] if m and m.group(1) != prop})
+        # an OWN obligation broke and nothing was exhibited: the module may name properties whose oracles exercise the same code from another side
+        if any(f'Props/{prop}/' in b for b in broken):
+            owners += [r for r in getattr(mod, 'RELATED', []) if r not in owners]
         for owner in owners:
             try:
                 omod = importlib.import_module(f'props.{owner}')
